@@ -440,6 +440,31 @@ void deliverToKinds(const Op& op, const Delivery& d, const std::string& wire, Ct
   }
 }
 
+// MessagePack without filter: when the independent decoder accepts the (possibly corrupted) bytes
+// as one object, the library must agree; when it finds them truncated, the library must not accept
+void refCheck(const Op& op, const Delivery& d, const std::string& wire) {
+  (void)op;
+  if (!d.msgpack || d.hasFilter)
+    return;
+  RefMsgPackDecoder dec(wire, kUseDouble);
+  auto rr = dec.decode();
+  Delivery dd = d;
+  dd.checkReuse = false;
+  dd.chunks.clear();
+  dd.shortAt = SIZE_MAX;
+  OneResult got = runOne(RK::CPtrN, dd, wire, nullptr);
+  if (rr.status == MpDecodeResult::Ok && rr.maxDepth <= size_t(effectiveLimit(d)) && got.code == "Ok") {
+    std::string why;
+    if (!looselyEqual(rr.value, got.walk, &why))
+      violate("C09:wrong-value", "corrupted but well-formed object decodes differently: " + why + " for " + hexdump(wire));
+    count("probe.corrupt_still_wellformed");
+  }
+  if (rr.status == MpDecodeResult::Ok && rr.maxDepth <= size_t(effectiveLimit(d)) && got.code != "Ok" && got.code != "NoMemory")
+    violate("C09:classification", "well-formed object (after corruption) rejected with " + got.code + ": " + hexdump(wire));
+  if (rr.status == MpDecodeResult::Incomplete && got.code == "Ok")
+    violate("C09:prefix", "truncated object (after corruption) accepted: " + hexdump(wire));
+}
+
 void opDeser(const Op& op, Ctx& cx) {
   Delivery d = deliveryFrom(op);
   std::string base = op.qstr("b");
@@ -502,30 +527,11 @@ void opDeser(const Op& op, Ctx& cx) {
         q.kv.erase(std::remove_if(q.kv.begin(), q.kv.end(), [](const std::pair<std::string, std::string>& p) { return p.first == "corrupt" || p.first == "noff"; }),
                    q.kv.end());
         q.set("flip", std::to_string(off) + ":" + std::to_string(mask));
-        q.set("expect", "any");
+        q.set("expect", "any").set("refcheck", 1);
         try {
           std::string wire = applyTransportFaults(q, base);
           deliverToKinds(q, d, wire, cx);
-          if (d.msgpack && !d.hasFilter) {
-            // when the independent decoder accepts the corrupted bytes too, the results agree
-            RefMsgPackDecoder dec(wire, kUseDouble);
-            auto rr = dec.decode();
-            Delivery dd = d;
-            dd.checkReuse = false;
-            OneResult got = runOne(RK::CPtrN, dd, wire, nullptr);
-            if (rr.status == MpDecodeResult::Ok && rr.maxDepth <= size_t(effectiveLimit(d)) && got.code == "Ok") {
-              std::string why;
-              // integers beyond the configured range become null: only compare when no such value
-              if (!looselyEqual(rr.value, got.walk, &why))
-                violate("C09:wrong-value", "corrupted but well-formed object decodes differently: " + why + " for " + hexdump(wire));
-              count("probe.corrupt_still_wellformed");
-            }
-            if (rr.status == MpDecodeResult::Ok && rr.maxDepth <= size_t(effectiveLimit(d)) && got.code != "Ok" &&
-                got.code != "NoMemory")
-              violate("C09:classification", "well-formed object (after corruption) rejected with " + got.code + ": " + hexdump(wire));
-            if (rr.status == MpDecodeResult::Incomplete && got.code == "Ok")
-              violate("C09:prefix", "truncated object (after corruption) accepted: " + hexdump(wire));
-          }
+          refCheck(q, d, wire);
         } catch (Violation& v) {
           Plan derived = *cx.plan;
           derived.ops[cx.opIndex] = q;
@@ -625,6 +631,8 @@ void opDeser(const Op& op, Ctx& cx) {
     return;
   }
   deliverToKinds(op, d, wire, cx);
+  if (op.has("refcheck"))
+    refCheck(op, d, wire);
 }
 
 // ----------------------------------------------------------------- op: longstr (limits)
@@ -1054,16 +1062,47 @@ Plan generate(const std::string& mode, uint64_t seed, uint64_t run) {
 
   if (mode == "valid" || mode == "mpvalid" || mode == "jsonvalid") {
     // well-formed input in a seeded legal spelling: Ok and the value, through every kind
-    Val v = genValue(r, go);
+    bool dup = !mp && r.chance(1, 5);
+    GenOpts gd = go;
+    gd.dupKeys = dup;
+    Val v = genValue(r, gd);
     if (!v.isContainer() && r.chance(1, 2)) {
       Val w = Val::arr();
       w.a.push_back(v);
       v = w;
     }
+    if (dup) {
+      // a repeated key: the last occurrence wins, at the position of the first. Make sure there is one,
+      // and that the kinds of the two values vary (null after a number, scalar after a container …)
+      Val o = Val::obj();
+      std::string k = r.chance(1, 2) ? "a" : genString(r, go, true);
+      GenOpts small = go;
+      small.maxDepth = 1;
+      o.o.emplace_back(k, genValue(r, small));
+      if (r.chance(1, 2))
+        o.o.emplace_back("between", genScalar(r, go));
+      o.o.emplace_back(k, r.chance(1, 3) ? Val::null() : genValue(r, small));
+      if (v.k == K::Arr)
+        v.a.push_back(o);
+      else if (v.k == K::Obj)
+        v.o.emplace_back("dup", o);
+      else
+        v = o;
+    }
     Op op = mkop("deser");
     fmt(op);
     op.setq("b", encodeValid(r, v, mp, true));
-    size_t depth = depthOf(v);
+    size_t textDepth = depthOf(v);  // what the parser has to descend into, overwritten members included
+    if (dup) {
+      // what the text denotes is decided by the independent parser (last occurrence wins)
+      std::string text = op.qstr("b");
+      RefJsonParser rp(text, true);
+      auto parsed = rp.parseDocument();
+      if (!parsed.ok)
+        throw HarnessError("generator: the reference parser rejects the reference writer's text: " + parsed.error);
+      v = parsed.value;
+    }
+    size_t depth = textDepth;
     if (r.chance(1, 3)) {
       int nl = int(depth + r.below(3));
       op.set("nl", nl);
